@@ -73,6 +73,9 @@ def menu_entry(k):
     m = dict(wt=wt, trial=trial, nelec=nelec, norb=norb, nchol=r.choice([1, 2, 3]), dt=STEP_DTS[k % 4], n_exp_terms=r.choice([4, 6]),
                 n_walkers=r.choice([4, 6]), n_batch=r.choice([1, 2]), kind="ladder" if k % 6 == 5 else ("sampler" if k % 6 == 2 else "history"),
                 n_prop_steps=r.choice([1, 2, 3]), n_ene_blocks=r.choice([1, 2]), n_sr_blocks=r.choice([2, 3]))
+    if wt == "restricted" and trial == "uhf" and random.Random(4100 + k).random() < 0.6:
+        # restricted walkers with an open-shell UHF trial (documented layout: n_up columns, the down determinant uses the first n_dn)
+        m["nelec"] = [2, 1] if norb == 3 else random.Random(4101 + k).choice([[2, 1], [3, 1]])
     lab.corner_override(m, k, 4)
     # hand-coded CISD / UCISD trials (the most used production trials): own stream again
     r2 = random.Random(4000003 + k)
